@@ -1380,7 +1380,7 @@ func (t *TBtree) readTsFile() uint64 {
 	path := filepath.Join(t.path, t.tsFile)
 
 	bs, err := os.ReadFile(path)
-	if err != nil {
+	if err != nil || len(bs) < 8 {
 		return 0
 	}
 	return binary.BigEndian.Uint64(bs)
